@@ -436,16 +436,19 @@ func (s *Syncer) handleRPC(id types.Specifier, stream *gateway.Stream, origin *P
 			s.resync(origin, fmt.Sprintf("peer relayed a v2 outline with unknown parent (%v)", r.Block.ParentID))
 			return nil
 		}
+		if r.Block.ParentID != s.cm.Tip().ID {
+			// block extends a sidechain, which peer (if honest) believes to be the
+			// heaviest chain. Its ID cannot be derived here: the commitment
+			// covers the parent state, and the state stored for a block that
+			// has not been applied is derived from its header only
+			s.resync(origin, "peer relayed a v2 outline that does not attach to our tip")
+			return nil
+		}
 		bid := r.Block.ID(cs)
 		if _, ok := s.cm.State(bid); ok {
 			return nil // already seen
 		} else if bid.CmpWork(cs.PoWTarget()) < 0 {
 			return s.ban(origin, errors.New("peer sent v2 outline with insufficient work"))
-		} else if r.Block.ParentID != s.cm.Tip().ID {
-			// block extends a sidechain, which peer (if honest) believes to be the
-			// heaviest chain
-			s.resync(origin, "peer relayed a v2 outline that does not attach to our tip")
-			return nil
 		}
 		log.Debug("received v2 block outline", zap.Stringer("blockID", bid), zap.Stringer("origin", origin))
 		// block has sufficient work and attaches to our tip, but may be missing
